@@ -274,14 +274,20 @@ impl FancyState {
 /// Format a task's status message to optionally include how long it has been running
 /// and also to fit within a maximum number of terminal columns.
 fn task_message(message: &str, seconds: usize, max_cols: usize) -> String {
-    let time_note = if seconds > 2 {
+    let mut time_note = if seconds > 2 {
         format!(" ({}s)", seconds)
     } else {
         "".into()
     };
+    if time_note.len() + 3 > max_cols {
+        // Too narrow to show the elapsed time.
+        time_note.clear();
+    }
     let mut out = message.to_owned();
     if out.len() + time_note.len() >= max_cols {
-        out.truncate(max_cols - time_note.len() - 3);
+        // Cut at a character boundary; String::truncate panics otherwise.
+        let keep = truncate(&out, max_cols.saturating_sub(time_note.len() + 3)).len();
+        out.truncate(keep);
         out.push_str("...");
     }
     out.push_str(&time_note);
